@@ -4,17 +4,12 @@
 (* (Utilities.cpp, List_Manipulations.hpp, Statistics.cpp §5).             *)
 (* S = what any correct implementation may return; A = what this code does.*)
 (***************************************************************************)
-EXTENDS Integers, Sequences, FiniteSets, Rat
+EXTENDS Integers, Sequences, FiniteSets, Rat, WDCore
 
 \* ------------------------------------------------------------------ Workload_Distribution
 \* A: quotient for everybody, the remainder goes to the last `rem` workers.
 \* index_list[workers - i] += rem - i  for i in 0..rem-1   (0-based list of workers+1 entries)
-WD_A(w, t) == LET q == t \div w
-                  r == t % w
-              IN  [k \in 1..(w+1) |->                         \* k = 0-based index + 1
-                     LET idx == k - 1
-                         i   == w - idx                       \* the i for which workers - i = idx
-                     IN  idx * q + (IF i >= 0 /\ i < r THEN r - i ELSE 0)]
+WD_A(w, t) == [k \in 1..(w+1) |-> WDIndex(w, t \div w, t % w, k - 1)]   \* k = 0-based index + 1; proofs/WD_Proof.tla proves WD_S for every w, t
 \* S: workers+1 non-decreasing indices from 0 to tasks; consecutive differences differ by at most one
 WD_S(s, w, t) == /\ Len(s) = w + 1
                  /\ s[1] = 0 /\ s[w+1] = t
